@@ -9,7 +9,7 @@ use refimpl as r;
 
 fn budget(t: Tier) -> u64 {
     match t {
-        Tier::Quick => 16_000,
+        Tier::Quick => 17_000,
         Tier::Thorough => 400_000,
     }
 }
@@ -46,7 +46,58 @@ pub fn random_forgery(rng: &mut Rng, n_prev: u32) -> Forgery {
     }
 }
 
+/// (region, number of bits) of an honest response at path depth 2, per protocol: the space of
+/// single-bit forgeries that is enumerated completely
+pub fn bit_regions(proto: P) -> Vec<(&'static str, u32)> {
+    match proto {
+        P::Classic => vec![("SIG", 512), ("PATH", 1024), ("INDX", 32), ("SREP.MIDP", 64), ("SREP.RADI", 32), ("SREP.ROOT", 512), ("CERT.SIG", 512), ("DELE.PUBK", 256), ("DELE.MINT", 64), ("DELE.MAXT", 64)],
+        P::Ietf => vec![("SIG", 512), ("PATH", 512), ("INDX", 32), ("SREP.MIDP", 64), ("SREP.RADI", 32), ("SREP.ROOT", 256), ("SREP.VER", 32), ("CERT.SIG", 512), ("DELE.PUBK", 256), ("DELE.MINT", 64), ("DELE.MAXT", 64)],
+    }
+}
+
+pub fn enumeration_size() -> u64 {
+    [P::Classic, P::Ietf].iter().map(|p| bit_regions(*p).iter().map(|r| r.1 as u64).sum::<u64>()).sum()
+}
+
+/// the k-th single-bit forgery: (protocol, region, bit)
+pub fn nth_bit_forgery(mut k: u64) -> (P, &'static str, u32) {
+    for proto in [P::Classic, P::Ietf] {
+        for (region, bits) in bit_regions(proto) {
+            if k < bits as u64 {
+                return (proto, region, k as u32);
+            }
+            k -= bits as u64;
+        }
+    }
+    (P::Classic, "SIG", 0)
+}
+
+fn gen_enumeration(seed: u64, k: u64) -> Plan {
+    let mut rng = Rng::derive(seed, "c01-enum");
+    let mut plan = Plan::new("C01", "c01.single_bit_enumeration", seed);
+    world_knobs(&mut rng, &mut plan, false);
+    let (proto, region, bit) = nth_bit_forgery(k);
+    plan.params.insert("enum_k".into(), k as i64);
+    let port = 4000 + rng.below(1000) as u16;
+    let slot = SlotSpec { index: rng.below(4) as u32, depth: 2, midp_secs: pick_midp_secs(&mut rng), midp_sub_us: rng.below(1_000_000) as u32, forgeries: vec![Forgery::FlipBit { region: region.to_string(), bit }], sibling_seed: rng.next_u64(), delay_us: 0 };
+    let spec = RefServerSpec { port, long_seed: rng.next_u64(), online_seed: rng.next_u64(), slots: vec![slot] };
+    let pk = {
+        let mut s = [0u8; 32];
+        Rng::derive(spec.long_seed, "ref-long").fill(&mut s);
+        r::pubkey_from_seed(&s)
+    };
+    plan.step(0, Action::StartRefServer(spec));
+    plan.step(1000, Action::RunClient { argv: client_args(&mut rng, port, proto, Some(&pk), 1, 2) });
+    plan.world.horizon_ms = 2_700;
+    plan
+}
+
 fn gen(seed: u64, idx: u64, _tier: Tier) -> Plan {
+    // the single-bit forgery space is enumerated completely first; the rest of the budget samples
+    // the richer operators
+    if idx < enumeration_size() {
+        return gen_enumeration(seed, idx);
+    }
     let mut rng = Rng::derive(seed, "c01");
     let two_runs = idx % 4 == 3;
     let mut plan = Plan::new("C01", if two_runs { "c01.byzantine_two_runs" } else { "c01.byzantine" }, seed);
@@ -129,6 +180,10 @@ fn check(plan: &Plan, out: &RunOut) -> CheckOut {
         match first_reject {
             Some((j, why)) => {
                 co.probe("forged_response_processed");
+                if plan.scenario == "c01.single_bit_enumeration" {
+                    let (_, region, _) = nth_bit_forgery(plan.p("enum_k") as u64);
+                    co.probe(&format!("single_bit_rejected:{}", region));
+                }
                 if lines.len() > j {
                     co.violate(
                         "C01",
@@ -143,6 +198,11 @@ fn check(plan: &Plan, out: &RunOut) -> CheckOut {
             None => {
                 if cr.received.len() == cr.requests.len() && !cr.received.is_empty() {
                     co.probe("all_responses_authentic");
+                }
+                if plan.scenario == "c01.single_bit_enumeration" && key_given && !cr.received.is_empty() {
+                    // a flipped bit the protocol does not look at (INDX bits above the path depth)
+                    let (_, region, _) = nth_bit_forgery(plan.p("enum_k") as u64);
+                    co.probe(&format!("single_bit_immaterial:{}", region));
                 }
             }
         }
@@ -186,7 +246,7 @@ pub fn property() -> Property {
         gen,
         check,
         finalize: no_finalize,
-        rule: "one evaluation = one simulated execution of the real client main() (one or two incarnations, -n 1..8, both protocols, key as hex or base64) against a byzantine reference responder applying 1-3 seeded forgery operators per response (bit flips / rewrites of SIG, PATH, INDX, SREP.{MIDP,RADI,ROOT,VER}, CERT.SIG, DELE.{PUBK,MINT,MAXT}; re-signing by other long-term or online keys; cross-protocol contexts; splices; replays within and across runs; truncation; random mutation; midpoint outside a genuine narrow window; wrong leaf/index; path longer/shorter; drop; duplicate); non-trivial = the client received a response; distinct = distinct schedule fingerprints",
+        rule: "the space of single-bit forgeries of an honest response at path depth 2 (every bit of SIG, PATH, INDX, SREP.{MIDP,RADI,ROOT,VER}, CERT.SIG, DELE.{PUBK,MINT,MAXT}, both protocols: 5408 forgeries) is enumerated completely, one forgery per execution; the remaining evaluations sample: one evaluation = one simulated execution of the real client main() (one or two incarnations, -n 1..8, both protocols, key as hex or base64) against a byzantine reference responder applying 1-3 seeded forgery operators per response (bit flips / rewrites of SIG, PATH, INDX, SREP.{MIDP,RADI,ROOT,VER}, CERT.SIG, DELE.{PUBK,MINT,MAXT}; re-signing by other long-term or online keys; cross-protocol contexts; splices; replays within and across runs; truncation; random mutation; midpoint outside a genuine narrow window; wrong leaf/index; path longer/shorter; drop; duplicate); non-trivial = the client received a response; distinct = distinct schedule fingerprints",
         assumptions: &["soundness direction only: the client succeeding implies the lenient reference verifier (signature chain under the protocol's contexts, delegation window, inclusion proof for the client's own request) accepts", "timeouts are not violations"],
         real: REAL_C,
         stub: STUB,
